@@ -9,7 +9,8 @@ weighted `from_gmat`, compared entry by entry with the published formulas evalua
 Fractions; plus, per genotype matrix and estimator, the kinship view, symmetry, PSD, labels,
 every taxon permutation and ordered sub-selection, the factories, and the summary methods
 (inverse, max/min/mean, min/max inbreeding, is_positive_semidefinite) against exact
-rational linear algebra.
+rational linear algebra; finally the genotype data of the same object are edited in place
+and four estimators are asked again (nothing may remember the old matrix).
 """
 from __future__ import annotations
 import itertools, math
@@ -28,7 +29,8 @@ RULE = ("one case = (genotype matrix, label variant, estimator, argument tuple):
         "compared with the Fraction formula (molecular: literal enumeration of every allele pair drawn from two "
         "individuals); 'deep' cases (6 per genotype matrix) additionally run kinship/coancestry accessors, inverse / "
         "extreme / mean / inbreeding summaries in both formats, is_positive_semidefinite, the factory, and from_gmat of every "
-        "permuted / sub-selected genotype matrix; cases whose formula divides by zero (VanRaden: sum p(1-p)=0, Yang: some "
+        "permuted / sub-selected genotype matrix; after all cases of a genotype matrix its first taxon is complemented in place "
+        "and 4 estimators are re-evaluated against the formulas of the edited matrix; cases whose formula divides by zero (VanRaden: sum p(1-p)=0, Yang: some "
         "p(1-p)=0) are excluded and counted; distinct = (kind, n, m, matrix index, labels, estimator, arguments); "
         "non-trivial = the reference matrix is not a multiple of the all-ones matrix")
 ASSUME = ["floats compared with rel 1e-9 / abs 1e-12; kinship = coancestry/2 compared exactly (halving is exact in binary64)",
